@@ -535,7 +535,7 @@ pub fn run(run: &'static Run) {
          compared with the transcription of git's dowild(). One case = one pattern (3124 triples). Sub-check classes: [[:c:]], [![:c:]], [^[:c:]] for the 12 POSIX \
          classes (+ one unknown name) x every single-byte text 0x01..0xff x 4 modes, each also bound to git. Sub-check brackets: `[` + {none,!,^} + every sequence of \
          <=4 (quick) / <=5 (thorough) members over {a,m,z,-,],\\],[:digit:],[:alpha:],[:upper:],0,A} (for <=4 members additionally `[:` = malformed class opener and `*`) + `]` x every single-byte text 0x01..0xff and 10 longer texts x 4 modes \
-         (transcription bound to git by git-bind-brackets: quick <=3 members of the base alphabet, thorough <=4 members incl. `[:` and `*`). non-trivial = the pattern contains a glob \
+         (transcription bound to git by git-bind-brackets: <=3 members, base alphabet in quick / incl. `[:` and `*` in thorough, plus all 4-member sequences over {a,z,-,],[:digit:]} / +{0}). non-trivial = the pattern contains a glob \
          special and, in some mode, matches at least one text and rejects at least one",
     );
     run.assume("oracle = Rust transcription of wildmatch.c:dowild() of git 2.39.5; bound to the git binary by sub-check git-bind");
@@ -550,7 +550,7 @@ pub fn run(run: &'static Run) {
          unfolded with the folded text byte (`[A]`/`\\A` match neither `a` nor `A`); gitoxide folds the whole pattern. Disagreements are tolerated (and counted as \
          documented_deviation_triples) only for such patterns in IGNORE_CASE modes; all other triples of those patterns are checked strictly",
     );
-    run.budget_secs(run.pick(100.0, 900.0)); // designed for <=40 s / <=10 min on an idle 16-core box; headroom because the box is shared
+    run.budget_secs(run.pick(100.0, 1500.0)); // designed for <=40 s / <=10 min on an idle 16-core box; headroom because the box is shared
     let texts = texts();
 
     // ---- bind the transcription to git ----
@@ -810,15 +810,18 @@ pub fn run(run: &'static Run) {
             vkit::machinery!("bracket fixture holds only {} names", bracket_names.len());
         }
     }
-    let bind_members = run.pick(3, 4);
     run.sub_with(
         "git-bind-brackets",
         vkit::Opts::default().chunk(64),
         |emit| {
             let mut batch = Vec::new();
+            // quick: <=3 members of the base alphabet; thorough: <=3 members incl. `[:` and `*`; both: every 4-member sequence over a
+            // reduced alphabet (member, class, dash, closing bracket: the shapes where a dash follows a class or a range)
+            const FOUR: [&str; 6] = ["a", "z", "-", "]", "[:digit:]", "0"];
+            let alphabet: &[&str] = if run.quick() { &MEMBERS } else { &MEMBERS_EXT };
+            let four: &[&str] = if run.quick() { &FOUR[..5] } else { &FOUR };
             for negation in ["", "!", "^"] {
-                let alphabet: &[&str] = if run.quick() { &MEMBERS } else { &MEMBERS_EXT };
-                enumerate::seqs(alphabet, 0, bind_members, |m| {
+                let mut add = |m: &[&str]| {
                     let p = format!("[{negation}{}]", m.concat()).into_bytes();
                     for mode in 0..4u8 {
                         batch.push(BindSpec { pattern: B(p.clone()), glob: mode & 1 != 0, icase: mode & 2 != 0 });
@@ -826,7 +829,9 @@ pub fn run(run: &'static Run) {
                             emit(BindCase { specs: std::mem::take(&mut batch) });
                         }
                     }
-                });
+                };
+                enumerate::seqs(alphabet, 0, 3, &mut add);
+                enumerate::seqs(four, 4, 4, &mut add);
             }
             if !batch.is_empty() {
                 emit(BindCase { specs: batch });
